@@ -17,6 +17,7 @@ tables without a cycle of bare references (`NoBareCycle T R`; `c14_table_bare_de
 import TonVerif.Proofs.TlTable
 import TonVerif.Proofs.TlFuel
 import TonVerif.Proofs.TlBare
+import TonVerif.Proofs.TlVec
 
 namespace TonVerif.Properties.C14
 open TonVerif TonVerif.Spec.Tl TonVerif.Model.Tl TonVerif.Proofs.Tl
@@ -126,6 +127,16 @@ theorem c14_roundtrip_auto_explicit (T : Table) (hT : TableOK T) (R : Nat) (hR :
         deserialize T true fuel (bs ++ rest) = w.map (fun x => (x, bs.length)) := by
   obtain ⟨fs, body, rfl, _, hb, rfl⟩ := h
   exact normalized_explicit T hT R hR c hc fs body hb
+
+/-- the side condition of the vector rule of the spec (`Enc.vector`: element count ≤ encoded length, because the
+repaired parser rejects a declared count larger than the remaining input) is implied by the table: a well-typed
+element list of a type whose values occupy at least one byte (`minLen T k e ≥ 1`, bare references followed `k` deep)
+is never longer than its encoding; every vector field of the bundled table has such an element type (`VecOK`, kernel
+evaluation over the regenerated table). -/
+theorem c14_vector_side_condition (T : Table) (P : Bytes → Prop) (k : Nat) :
+    (∀ (e : ETy) (vs : List Val) (bs : Bytes), 1 ≤ minLen T k e → Enc T P (.many e vs) bs → vs.length ≤ bs.length) ∧
+    VecOK Generated.Tl.table 1 :=
+  ⟨fun e vs bs hmin h => many_length_le T P k e vs bs hmin h, bundled_vecOK⟩
 
 /-- the round trips instantiated for ALL bundled constructors at once: auto-deserialisation off; on, under the side
 condition (identity); on, in general (normal form, explicit budget `tlFuel 5`). -/
@@ -285,6 +296,10 @@ example (fuel : Nat) : deserialize cyc true fuel (natToLE 4 7) = none := by
   | succ f =>
     have hid : byIdLE cyc (natToLE 4 7) = some ⟨1, 2, 7, [⟨3, none, false, .bare 1⟩], []⟩ := by decide
     simp [deserialize, deserObj, hid, deserBody, deserArg, deserOne, hb, key]
+
+/-- `c14_vector_side_condition` on the toy table: `xs:(vector int)` elements occupy 4 bytes; the two-element list of
+`v10` is shorter than its 8-byte encoding. -/
+example : VecOK toy 0 := vecOK_of_b toy 0 (by decide)
 
 /-- block ids: the masterchain shard id with 32-byte hashes meets the hypotheses. -/
 example : let b : BlockIdExt := ⟨-1, -9223372036854775808, 5, List.replicate 32 7, List.replicate 32 9⟩
